@@ -20,7 +20,7 @@ struct MVar {
     long long nrec_alloc = 0;
 };
 struct MReq { bool live = false; int kind = K_IPUT; int var = 0; Access acc; long long nbytes = 0; int opidx = -1; long long abuf_bytes = 0; };
-struct MRank { long long numrecs = 0; std::vector<MReq> reqs; bool abuf = false; long long abuf_size = 0, abuf_used = 0; bool numrecs_dirty = false; };
+struct MRank { std::vector<std::pair<long long, int>> abuf_table; /* (bytes, reqslot or -1 when released) in allocation order */ long long numrecs = 0; std::vector<MReq> reqs; bool abuf = false; long long abuf_size = 0, abuf_used = 0; bool numrecs_dirty = false; };
 enum FMode { FM_DEFINE, FM_COLL, FM_INDEP };
 struct MFile {
     bool open = false; std::string path; int format = 1; int mode = FM_DEFINE; bool readonly = false; bool fresh = true; // fresh: created and never enddef'ed
@@ -29,6 +29,7 @@ struct MFile {
     long long numrecs = 0; bool fill = false;
     std::vector<MRank> ranks;
     bool bb = false;  // burst-buffer driver
+    bool aggr = false; // intra-node write aggregation: a rank's written data travels through another rank
     // snapshot taken at redef (for abort)
     std::shared_ptr<MFile> saved;
     int unlimdim() const { for (size_t i = 0; i < dims.size(); i++) if (dims[i].len == 0) return (int)i; return -1; }
@@ -37,6 +38,7 @@ struct MFile {
 struct Model {
     int nprocs = 1;
     bool strict_coord = false;
+    bool aggr_env = false;
     bool strict_iget_overlap = false;   // check the overlapped share of overlapping iget requests completed by one wait (known finding: kept for 10% of C02 seeds)
     std::vector<MFile> files;                 // file slots
     std::map<std::string, MFile> disk;        // closed files by path
